@@ -7,8 +7,25 @@ EXTENDS MC_ParserFns, Json, IOUtils
 NamesFile == JsonDeserialize(IOEnv.NAMES_FILE)
 FileKnown == {NamesFile.known[i] : i \in 1..Len(NamesFile.known)}
 FileNames == {NamesFile.names[i] : i \in 1..Len(NamesFile.names)}
+\* (the indirection keeps TLC from re-reading the file at every reference of the constant)
+FileSitesV == TLCEval(NamesFile.sites)
+FileSites == FileSitesV
+FileNsFnsV == TLCEval(NsFnsBuiltin \cup {NamesFile.nsfns[i] : i \in 1..Len(NamesFile.nsfns)})
+FileNsFns == FileNsFnsV
 Emit == x.ph = "call" =>
   PrintT(<<"CASE", ToJson([name |-> x.name, argv |-> x.argv, title |-> x.title,
                            exp |-> Call(x.name, x.argv, x.title),
                            asis |-> CallD(x.name, x.argv, x.title, DevAsIs)])>>)
+EmitS == x.ph = "call" =>
+  PrintT(<<"CASE", ToJson([name |-> x.name, site |-> x.s, lang |-> Sites[x.s].lang, syn |-> Sites[x.s].syn, j |-> x.j, form |-> x.form, pos |-> x.pos,
+                           id |-> IF x.j = 0 THEN 0 ELSE E(x.s, x.j).id,
+                           key |-> IF x.j = 0 THEN "" ELSE E(x.s, x.j).key,
+                           facts |-> IF x.j = 0 THEN {} ELSE FactsOf(x.s, x.j),
+                           structural |-> IF x.j = 0 THEN FALSE ELSE Structural(x.s, x.j),
+                           attested |-> IF x.j = 0 THEN TRUE ELSE ~NoSubject(x.s, x.j),
+                           title |-> PageTitle(x.s, x.j, x.form, x.pos),
+                           hasarg |-> x.pos # "title", arg |-> Arg1(x.s, x.j, x.form, x.pos),
+                           exp |-> CallS(x.name, x.s, x.j, x.form, x.pos),
+                           asis |-> CallSD(x.name, x.s, x.j, x.form, x.pos, DevAsIs),
+                           val |-> ValS(x.name, x.s, x.j, x.form, x.pos)])>>)
 =============================================================================
